@@ -355,7 +355,7 @@ W = {wire}
     chk.append("    eq('from_dict by alias', lambda: A.from_dict({S: W, 'y': 3}), A(V, 3))")
     if opts.get("allow_deserialization_not_by_alias"):
         chk.append("    eq('from_dict by name', lambda: A.from_dict({'x': W, 'y': 3}), A(V, 3))")
-        chk.append("    eq('alias wins over name', lambda: A.from_dict({S: W, 'x': None, 'y': 3}), A(V, 3))")
+        chk.append("    if S != 'x': eq('alias wins over name', lambda: A.from_dict({S: W, 'x': None, 'y': 3}), A(V, 3))")
     elif not dflt and opts.get("forbid_extra_keys"):
         chk.append("    if S != 'x': raises('alias required', lambda: A.from_dict({'x': W, 'y': 3}), ExtraKeysError, 'extra_keys', {'x'})")
     elif not dflt:
@@ -738,6 +738,25 @@ def run(ctx: vlib.Ctx):
     ]
     br = ctx.theorems("props/C16_strings.vo", THEOREMS, kernels=["K10"])
     rep = k10_evidence(ctx)
+    if not br.ok:
+        # say which half broke: the pure string-literal theorems do not depend on /repo
+        pure = ctx.build(["theories/PyStrLitProofs.vo"])
+        bad_rows = (ctx.coverage.get("k10") or {}).get("not_ok_rows", [])
+        if pure.ok:
+            for o in ctx.obligations:
+                if o["name"] in ("C16_repr_lex", "C16_ascii_lex", "C16_repr_bytes_lex", "C16_repr_clean", "C16_raw_plain_lex") and not o["ok"]:
+                    o["detail"] = ("lemma of theories/PyStrLitProofs.vo still checks; not re-stated because props/C16_strings.v "
+                                   "does not build: " + o["detail"])[:1500]
+        if bad_rows:
+            ctx.not_shown("K10: splice sites of /repo that fail site_ok (C16_sites)", "; ".join(bad_rows))
+    if br.ok and not ctx.quick():
+        # second opinion: the standalone checker on the compiled property file
+        rc, log, secs = vlib.run(["timeout", "900", "coqchk", "-silent", "-o", "-Q", "theories", "Verif", "-Q", "gen", "VerifGen",
+                                  "-Q", "props", "VerifProps", "VerifProps.C16_strings"], cwd=vlib.COQ, timeout=930)
+        ok = rc == 0 and "Axioms: <none>" in log
+        ctx.obligation("coqchk VerifProps.C16_strings (no axioms)", ok, log[-400:])
+        if not ok:
+            ctx.not_shown("coqchk VerifProps.C16_strings", log[-800:])
     model_tie(ctx)
     broken = bool(ctx.unshown)
     oracle(ctx, boost=broken)
